@@ -149,6 +149,19 @@ func (p *PKI) reloadCerts(c *config.C, initial bool) *util.ContextualError {
 		if newState.v2Cert != nil {
 			if currentState.v2Cert == nil {
 				//adding certs is fine, actually
+				if newState.v1Cert == nil {
+					//if we're going from v1-only to v2-only, we need to make sure the v2 cert keeps the primary
+					//network and didn't orphan any v1-cert vpnaddrs
+					oldNetworks, newNetworks := currentState.v1Cert.Networks(), newState.v2Cert.Networks()
+					orphaned := slices.ContainsFunc(oldNetworks, func(n netip.Prefix) bool { return !slices.Contains(newNetworks, n) })
+					if orphaned || oldNetworks[0] != newNetworks[0] {
+						return util.NewContextualError(
+							"Replacing a V1 cert with a V2 cert is not permitted unless the V2 cert keeps the primary network and contains all networks of the old V1 cert",
+							m{"new_v2_networks": newNetworks, "old_v1_networks": oldNetworks},
+							nil,
+						)
+					}
+				}
 			} else {
 				// did IP in cert change? if so, don't set
 				if !slices.Equal(currentState.v2Cert.Networks(), newState.v2Cert.Networks()) {
